@@ -125,6 +125,31 @@ pub fn show_state(l: &PriceLevel) -> String {
 }
 
 impl Exec {
+    /// hands a (damaged) package text to `from_snapshot_json` and emits outcome + judge lines
+    fn restore_bytes(&mut self, f: &[u8]) {
+        let outcome = match std::str::from_utf8(f) {
+            Err(_) => "restored err".to_string(),
+            Ok(t) => match catch_unwind(AssertUnwindSafe(|| PriceLevel::from_snapshot_json(t))) {
+                Ok(Ok(l)) => format!("restored ok {}", show_state_content(&l)),
+                Ok(Err(_)) => "restored err".to_string(),
+                Err(_) => "PANIC".to_string(),
+            },
+        };
+        // the model is asked only when the damaged text is still a JSON document
+        let mut asked = false;
+        if let Ok(t) = std::str::from_utf8(f) {
+            if serde_json::from_str::<serde_json::Value>(t).is_ok() {
+                self.emit(format!("pkg.restore {}", crate::codec::hex(t)), outcome.clone());
+                asked = true;
+            }
+        }
+        if !asked {
+            self.emit(format!("pkg.raw h{}", crate::codec::hex_bytes(f)), "raw");
+        }
+        let fhex = match std::str::from_utf8(f) { Ok(t) => crate::codec::hex(t), Err(_) => "-".to_string() };
+        self.emit(format!("judge.C09 {} {} {}", self.pkg_content, fhex, outcome), "J C09 ok");
+        self.emit(format!("judge.C18 {}", outcome), "J C18 ok");
+    }
     pub fn new() -> Self {
         Exec {
             lvl: Arc::new(PriceLevel::new(0)),
@@ -575,7 +600,7 @@ impl Exec {
                 self.emit(format!("judge.C17 {ty} {want} {out}"), "J C17 ok");
                 self.emit(format!("judge.C18 {out}"), "J C18 ok");
             }
-            ["pkg.make"] => {
+            ["pkg.make"] | ["pkg.make", _] => {
                 let snap = self.lvl.snapshot();
                 let ids: Vec<OrderId> = snap.orders.iter().map(|o| o.id()).collect();
                 match catch_unwind(AssertUnwindSafe(|| self.lvl.snapshot_to_json())) {
@@ -595,22 +620,14 @@ impl Exec {
                 if f == self.pkg_text.as_bytes() {
                     return true; // not a change
                 }
-                let outcome = match std::str::from_utf8(&f) {
-                    Err(_) => "restored err".to_string(),
-                    Ok(t) => match catch_unwind(AssertUnwindSafe(|| PriceLevel::from_snapshot_json(t))) {
-                        Ok(Ok(l)) => format!("restored ok {}", show_state_content(&l)),
-                        Ok(Err(_)) => "restored err".to_string(),
-                        Err(_) => "PANIC".to_string(),
-                    },
-                };
-                // the model is asked only when the damaged text is still a JSON document
-                if let Ok(t) = std::str::from_utf8(&f) {
-                    if serde_json::from_str::<serde_json::Value>(t).is_ok() {
-                        self.emit(format!("pkg.restore {}", crate::codec::hex(t)), outcome.clone());
-                    }
+                self.restore_bytes(&f);
+            }
+            // replay forms: the damaged text itself (what `pkg.fault` handed to the model)
+            ["pkg.restore", h] | ["pkg.raw", h] => {
+                match crate::codec::unhex_bytes(h.strip_prefix('h').unwrap_or(h)) {
+                    Some(f) => self.restore_bytes(&f),
+                    None => self.emit(line, "harness-bad-op"),
                 }
-                self.emit(format!("judge.C09 {} {}", self.pkg_content, outcome), "J C09 ok");
-                self.emit(format!("judge.C18 {}", outcome), "J C18 ok");
             }
             ["read", kind] => {
                 // read-only calls: must not change any later result (C07); outputs are not compared here
